@@ -4,7 +4,7 @@ exploration; z3 decides per joint path whether any input makes return value, glo
 kind of failure differ."""
 import signal
 import z3
-from .. import symx, shims, unit
+from .. import core, symx, shims, unit
 from ..symx import Engine
 from ..nslref import ast as A
 from ..nslref import joint
@@ -66,14 +66,18 @@ def check_pair(prog, fname, linked_ref, linked_cand, *, harness, inst, extra_pre
 
     eng = Engine(max_decisions=max_decisions, max_paths=max_paths, path_timeout=path_timeout)
     import time as _time
-    eng.deadline = _time.time() + INSTANCE_BUDGET_S
+    budget_s, slack_s, tier_query_ms = core.budgets()
+    query_timeout_ms = min(query_timeout_ms, tier_query_ms)
+    eng.solver.set("timeout", min(eng._solver_timeout_ms, tier_query_ms))          # feasibility queries of the exploration
+    eng._solver_timeout_ms = min(eng._solver_timeout_ms, tier_query_ms)
+    eng.deadline = _time.time() + min(INSTANCE_BUDGET_S, budget_s)
     paths = eng.explore(fn, pre)
     res["paths"] = len(paths)
     if not paths:
         res["errors"].append("no feasible path (vacuous instance)")
     grid = joint.grid(zvars)
     for p in paths:
-        if _time.time() > eng.deadline + 60:
+        if _time.time() > eng.deadline + slack_s:
             res["undecided"] += 1          # the query phase ran out of its budget too: not decided
             continue
         if p.kind == "cut":
